@@ -28,7 +28,7 @@ var chkBP = pipeCheck{"R_bp_violation", "where_not (fun c => bp_ok regs (fattrs 
 func emitPipelineCases(c *Ctx, progs []*Prog, checks []pipeCheck, shard int, nontrivial func(*Prog, *Observed) bool) {
 	o := c.Out
 	o.WriteFile("Tab.v", commonTab(c)+
-		"From Avo Require Import Proofs.AllocCorrect.\n(* hypothesis of model_regalloc_preserves_semantics for the translated register file *)\nLemma regfile_ok_tab : regfile_ok regs = true.\nProof. vm_compute. reflexivity. Qed.\nPrint Assumptions regfile_ok_tab.\nLemma regfile_kinds_ok_tab : regfile_kinds_ok regs = true.\nProof. vm_compute. reflexivity. Qed.\nPrint Assumptions regfile_kinds_ok_tab.\n")
+		"From Avo Require Import Proofs.AllocCorrect.\n(* hypothesis of model_regalloc_preserves_semantics for the translated register file *)\nLemma regfile_ok_tab : regfile_ok regs = true.\nProof. vm_compute. reflexivity. Qed.\nPrint Assumptions regfile_ok_tab.\nLemma regfile_kinds_ok_tab : regfile_kinds_ok regs = true.\nProof. vm_compute. reflexivity. Qed.\nPrint Assumptions regfile_kinds_ok_tab.\nFrom Avo Require Import Proofs.BindProofs.\nLemma regfile_bind_ok_tab : regfile_bind_ok regs = true.\nProof. vm_compute. reflexivity. Qed.\nPrint Assumptions regfile_bind_ok_tab.\n")
 	o.WriteFile("Order.v", orderFile(c))
 	// the register table itself against the hardware register file (same specification as C20): the passes
 	// and their model both read the table, so an error in it would not show as a disagreement
@@ -38,7 +38,7 @@ func emitPipelineCases(c *Ctx, progs []*Prog, checks []pipeCheck, shard int, non
 	o.ExpectEmpty("RegTab.v", "R_regtable_violation", "violation", "an entry of the register table (reg/x86.go) does not describe the hardware register its name denotes: ID, width, byte mask, or the Restricted/BasePointer flags (index into the table)")
 	o.Stage("Tab.v")
 	o.Stage("Order.v", "RegTab.v")
-	o.Oblig("Order.pass_order_ok", "RegTab.regs_spec_ok", "Tab.info_constants_ok", "Tab.regfile_ok_tab", "Tab.regfile_kinds_ok_tab")
+	o.Oblig("Order.pass_order_ok", "RegTab.regs_spec_ok", "Tab.info_constants_ok", "Tab.regfile_ok_tab", "Tab.regfile_kinds_ok_tab", "Tab.regfile_bind_ok_tab")
 	stages := map[string]int{}
 	tagCount := map[string]int{}
 	sizes := map[string]int{}
